@@ -458,6 +458,11 @@ def record_payloads():
     for v in BOUNDARY32:
         for verinst, typ in ((0x0000, 0x0FA8), (0x000F, 0x03E8), (0x6E00, 0xF01E), (0x46A0, 0xF01D)):
             yield f"rec8:record-{verinst:04x}-{typ:04x}-length-{v:08x}", good + struct.pack("<HHI", verinst, typ, v) + b"\x00" * 40 + good
+    # BIFF records: 4-byte header (id u16, length u16 little-endian)
+    bof = struct.pack("<HH", 0x0809, 4) + b"\x00\x06\x05\x00"
+    for v in (0, 1, 4, 0x7FFF, 0x8000, 0xFFF8, 0xFFFC, 0xFFFF):
+        for rid in (0x003C, 0x00EB, 0x0809):
+            yield f"rec4:record-{rid:04x}-length-{v:04x}", bof + struct.pack("<HH", rid, v) + b"\x00" * 24 + bof
     for v in BOUNDARY32:
         yield f"dib:header-size-{v:08x}", struct.pack("<IiiHHII", v, 1, 1, 1, 24, 0, 4) + b"\x00" * 24
         yield f"dib:image-size-{v:08x}", struct.pack("<IiiHHII", 40, 1, 1, 1, 24, 0, v) + b"\x00" * 24
